@@ -10,6 +10,9 @@
 EXTENDS BER
 
 Rej(why) == [c |-> Reject, why |-> why]
+(* an element that is refused: when its header itself could not be parsed inside the enclosing extent (it runs past it, is cut
+   short, ...) the reason is the header parser's - C16 wants to know about extents - otherwise it is the element's name *)
+RejT(h, name) == IF ~h.ok THEN Rej(h.why) ELSE Rej(name)
 
 PduGet == 0
 PduGetNext == 1
@@ -67,13 +70,13 @@ PduAt(b, p, e) ==
            h1 == TLVAt(b, h.cs, pe) IN
        IF h.tag = PduReport /\ ~ReportBodyOK(b, h.cs, pe)
          THEN [c |-> Free, why |-> "report-body"]      \* the body of a Report is not interpreted by a client: only totality
-       ELSE IF ~IsTag(h1, CUniversal, FALSE, 2) THEN Rej("reqid")
+       ELSE IF ~IsTag(h1, CUniversal, FALSE, 2) THEN RejT(h1, "reqid")
        ELSE LET h2 == TLVAt(b, h1.nx, pe) IN
-       IF ~IsTag(h2, CUniversal, FALSE, 2) THEN Rej("f2")
+       IF ~IsTag(h2, CUniversal, FALSE, 2) THEN RejT(h2, "f2")
        ELSE LET h3 == TLVAt(b, h2.nx, pe) IN
-       IF ~IsTag(h3, CUniversal, FALSE, 2) THEN Rej("f3")
+       IF ~IsTag(h3, CUniversal, FALSE, 2) THEN RejT(h3, "f3")
        ELSE LET h4 == TLVAt(b, h3.nx, pe) IN
-       IF ~IsTag(h4, CUniversal, TRUE, 16) THEN Rej("vbl")
+       IF ~IsTag(h4, CUniversal, TRUE, 16) THEN RejT(h4, "vbl")
        ELSE IF h4.nx # pe + 1 THEN Rej("trailing-in-pdu")
        ELSE LET i1 == IntOf(Content(b, h1))
                 i2 == IntOf(Content(b, h2))
@@ -98,15 +101,15 @@ DecodeCommunity(ver, b) ==
   LET n == Len(b)
       h == TLVAt(b, 1, n) IN
   IF ~h.ok THEN Rej(h.why)
-  ELSE IF ~IsTag(h, CUniversal, TRUE, 16) THEN Rej("not-seq")
+  ELSE IF ~IsTag(h, CUniversal, TRUE, 16) THEN RejT(h, "not-seq")
   ELSE IF h.nx # n + 1 THEN Rej("trailing-after-message")           \* C16
   ELSE LET e == n
            hv == TLVAt(b, h.cs, e) IN
-       IF ~IsTag(hv, CUniversal, FALSE, 2) THEN Rej("version")
+       IF ~IsTag(hv, CUniversal, FALSE, 2) THEN RejT(hv, "version")
        ELSE LET iv == IntOf(Content(b, hv)) IN
        IF iv.c >= Free \/ iv.v # VerNum(ver) THEN Rej("other-version")  \* C04
        ELSE LET hc == TLVAt(b, hv.nx, e) IN
-       IF ~IsTag(hc, CUniversal, FALSE, 4) THEN Rej("community")
+       IF ~IsTag(hc, CUniversal, FALSE, 4) THEN RejT(hc, "community")
        ELSE LET p == PduAt(b, hc.nx, e) IN
        IF p.c = Reject THEN Rej(p.why)
        ELSE IF p.c = Free THEN [c |-> Free, why |-> p.why]
@@ -116,20 +119,20 @@ DecodeCommunity(ver, b) ==
 (* --- SNMPv3 -------------------------------------------------------------------- *)
 UsmAt(b, p, e) ==        \* content of msgSecurityParameters: exactly one SEQUENCE
   LET h == TLVAt(b, p, e) IN
-  IF ~IsTag(h, CUniversal, TRUE, 16) THEN Rej("usm-seq")
+  IF ~IsTag(h, CUniversal, TRUE, 16) THEN RejT(h, "usm-seq")
   ELSE IF h.nx # e + 1 THEN Rej("usm-trailing")
   ELSE LET h1 == TLVAt(b, h.cs, e) IN
-  IF ~IsTag(h1, CUniversal, FALSE, 4) THEN Rej("usm-engine")
+  IF ~IsTag(h1, CUniversal, FALSE, 4) THEN RejT(h1, "usm-engine")
   ELSE LET h2 == TLVAt(b, h1.nx, e) IN
-  IF ~IsTag(h2, CUniversal, FALSE, 2) THEN Rej("usm-boots")
+  IF ~IsTag(h2, CUniversal, FALSE, 2) THEN RejT(h2, "usm-boots")
   ELSE LET h3 == TLVAt(b, h2.nx, e) IN
-  IF ~IsTag(h3, CUniversal, FALSE, 2) THEN Rej("usm-time")
+  IF ~IsTag(h3, CUniversal, FALSE, 2) THEN RejT(h3, "usm-time")
   ELSE LET h4 == TLVAt(b, h3.nx, e) IN
-  IF ~IsTag(h4, CUniversal, FALSE, 4) THEN Rej("usm-user")
+  IF ~IsTag(h4, CUniversal, FALSE, 4) THEN RejT(h4, "usm-user")
   ELSE LET h5 == TLVAt(b, h4.nx, e) IN
-  IF ~IsTag(h5, CUniversal, FALSE, 4) THEN Rej("usm-auth")
+  IF ~IsTag(h5, CUniversal, FALSE, 4) THEN RejT(h5, "usm-auth")
   ELSE LET h6 == TLVAt(b, h5.nx, e) IN
-  IF ~IsTag(h6, CUniversal, FALSE, 4) THEN Rej("usm-priv")
+  IF ~IsTag(h6, CUniversal, FALSE, 4) THEN RejT(h6, "usm-priv")
   ELSE LET ib == IntOf(Content(b, h2))
            it == IntOf(Content(b, h3))
            lens == MaxC(MaxC(MaxC(LenClass(h), LenClass(h1)), MaxC(LenClass(h2), LenClass(h3))),
@@ -142,13 +145,13 @@ UsmAt(b, p, e) ==        \* content of msgSecurityParameters: exactly one SEQUEN
 (* scopedPDU ::= SEQUENCE { contextEngineID, contextName, data }, from p; must end at e *)
 ScopedAt(b, p, e, exact) ==
   LET h == TLVAt(b, p, e) IN
-  IF ~IsTag(h, CUniversal, TRUE, 16) THEN Rej("scoped-seq")
+  IF ~IsTag(h, CUniversal, TRUE, 16) THEN RejT(h, "scoped-seq")
   ELSE IF FALSE THEN Rej("x")
   ELSE LET se == h.cs + h.cl - 1
            h1 == TLVAt(b, h.cs, se) IN
-  IF ~IsTag(h1, CUniversal, FALSE, 4) THEN Rej("ctx-engine")
+  IF ~IsTag(h1, CUniversal, FALSE, 4) THEN RejT(h1, "ctx-engine")
   ELSE LET h2 == TLVAt(b, h1.nx, se) IN
-  IF ~IsTag(h2, CUniversal, FALSE, 4) THEN Rej("ctx-name")
+  IF ~IsTag(h2, CUniversal, FALSE, 4) THEN RejT(h2, "ctx-name")
   ELSE LET p1 == PduAt(b, h2.nx, se) IN
   IF p1.c = Reject THEN Rej(p1.why)
   ELSE IF p1.c = Free THEN [c |-> Free, why |-> p1.why]
@@ -160,28 +163,28 @@ DecodeV3(b) ==
   LET n == Len(b)
       h == TLVAt(b, 1, n) IN
   IF ~h.ok THEN Rej(h.why)
-  ELSE IF ~IsTag(h, CUniversal, TRUE, 16) THEN Rej("not-seq")
+  ELSE IF ~IsTag(h, CUniversal, TRUE, 16) THEN RejT(h, "not-seq")
   ELSE IF h.nx # n + 1 THEN Rej("trailing-after-message")
   ELSE LET e == n
            hv == TLVAt(b, h.cs, e) IN
-  IF ~IsTag(hv, CUniversal, FALSE, 2) THEN Rej("version")
+  IF ~IsTag(hv, CUniversal, FALSE, 2) THEN RejT(hv, "version")
   ELSE LET iv == IntOf(Content(b, hv)) IN
   IF iv.c >= Free \/ iv.v # Three THEN Rej("other-version")
   ELSE LET hg == TLVAt(b, hv.nx, e) IN
-  IF ~IsTag(hg, CUniversal, TRUE, 16) THEN Rej("global-header")
+  IF ~IsTag(hg, CUniversal, TRUE, 16) THEN RejT(hg, "global-header")
   ELSE LET ge == hg.cs + hg.cl - 1
            g1 == TLVAt(b, hg.cs, ge) IN
-  IF ~IsTag(g1, CUniversal, FALSE, 2) THEN Rej("msgid")
+  IF ~IsTag(g1, CUniversal, FALSE, 2) THEN RejT(g1, "msgid")
   ELSE LET g2 == TLVAt(b, g1.nx, ge) IN
-  IF ~IsTag(g2, CUniversal, FALSE, 2) THEN Rej("maxsize")
+  IF ~IsTag(g2, CUniversal, FALSE, 2) THEN RejT(g2, "maxsize")
   ELSE LET g3 == TLVAt(b, g2.nx, ge) IN
-  IF ~IsTag(g3, CUniversal, FALSE, 4) \/ g3.cl # 1 THEN Rej("flags")
+  IF ~IsTag(g3, CUniversal, FALSE, 4) \/ g3.cl # 1 THEN RejT(g3, "flags")
   ELSE LET g4 == TLVAt(b, g3.nx, ge) IN
-  IF ~IsTag(g4, CUniversal, FALSE, 2) THEN Rej("secmodel")
+  IF ~IsTag(g4, CUniversal, FALSE, 2) THEN RejT(g4, "secmodel")
   ELSE LET sm == IntOf(Content(b, g4)) IN
   IF sm.c >= Free \/ sm.v # Three THEN Rej("unknown-security-model")
   ELSE LET hs == TLVAt(b, hg.nx, e) IN
-  IF ~IsTag(hs, CUniversal, FALSE, 4) THEN Rej("secparams")
+  IF ~IsTag(hs, CUniversal, FALSE, 4) THEN RejT(hs, "secparams")
   ELSE LET u == UsmAt(b, hs.cs, hs.cs + hs.cl - 1) IN
   IF u.c = Reject THEN Rej(u.why)
   ELSE LET mid == IntOf(Content(b, g1))
